@@ -650,6 +650,79 @@ def replay_spacing(p):
     return _res(bad, {'dtype': INT_DT[dti], 'values': vals, 'spacing': None if spacing is None else float(spacing)}, argmap)
 
 
+def replay_float_index(p):
+    """float64 index of integer-valued numbers / NaN through the public API: what SPACING the file declares, and
+    whether the high-compatibility mode refuses an index with a hole."""
+    _quiet()
+    import math
+    import contextlib
+    import warnings
+    from dliswriter import DLISFile, high_compatibility_mode
+    from dliswriter.logical_record.eflr_types.frame import FrameItem
+    a_ = p['args']
+    n = a_[0]
+    ints = list(a_[1:5])[:n]
+    flags = list(a_[5:9])[:n]
+    mode = bool(a_[9])
+    vals = [float('nan') if flags[i] else float(ints[i]) for i in range(n)]
+    anynan = any(flags)
+    arr = np.array(vals, dtype=np.float64)
+    argmap = {'index': [None if math.isnan(v) else v for v in vals], 'high_compat_mode': mode}
+    bad = ''
+    with warnings.catch_warnings():
+        warnings.simplefilter('ignore')
+        spacing, direction = FrameItem._compute_spacing_and_direction(arr)
+    if anynan and n >= 2 and spacing is not None:
+        bad = f'float64 index {vals}: SPACING {spacing} declared for an index with a missing (NaN) sample'
+    if not anynan and n >= 2:
+        diffs = [ints[i + 1] - ints[i] for i in range(n - 1)]
+        if len(set(diffs)) == 1 and (spacing is None or spacing != diffs[0]):
+            bad = f'float64 index {vals}: spacing {spacing}, true difference {diffs[0]}'
+        inc, dec = all(x >= 0 for x in diffs), all(x <= 0 for x in diffs)
+        want = None if all(x == 0 for x in diffs) else True if inc else False if dec else None
+        if not bad and direction is not want:
+            bad = f'float64 index {vals}: direction {direction}, expected {want}'
+        if not bad and len(set(diffs)) > 1 and spacing is not None:
+            from fractions import Fraction
+            sd = sorted(diffs)
+            k = len(sd)
+            med = Fraction(sd[k // 2]) if k % 2 else Fraction(sd[k // 2 - 1] + sd[k // 2], 2)
+            if med == 0 or any((1 - Fraction(x) / med) ** 2 > Fraction(32, 1000) ** 2 for x in diffs):
+                bad = f'float64 index {vals}: SPACING {spacing} although the differences {diffs} are not uniform within the tolerance'
+    if n == 1 and (spacing is not None or direction is not None):
+        bad = f'single row: spacing {spacing}, direction {direction}'
+    if not bad and n >= 2 and anynan:
+        path = fresh_tmp()
+        try:
+            with warnings.catch_warnings():
+                warnings.simplefilter('ignore')
+                with (high_compatibility_mode() if mode else contextlib.nullcontext()):
+                    df = DLISFile()
+                    lf = df.add_logical_file()
+                    lf.add_origin('O', file_set_number=1, creation_time='2020/01/01 00:00:00')
+                    ch = lf.add_channel('IDX', data=arr)
+                    lf.add_frame('FR', channels=(ch,), index_type='BOREHOLE-DEPTH')
+                    try:
+                        df.write(path, output_chunk_size=65536)
+                        ok = True
+                    except RuntimeError:
+                        ok = False
+            if mode and ok:
+                bad = f'written in the high-compatibility mode although the index {vals} has a missing sample'
+            elif ok:
+                at = _frame_attrs(open(path, 'rb').read())
+                if at.get('SPACING') is not None:
+                    bad = f'SPACING {at.get("SPACING")} written for index {vals}'
+        except strict.StrictError as e:
+            bad = f'strict reader: {e}'
+        finally:
+            try:
+                os.remove(path)
+            except OSError:
+                pass
+    return _res(bad, {'values': argmap['index'], 'spacing': None if spacing is None else float(spacing)}, argmap)
+
+
 def replay_params(p):
     _quiet()
     from dliswriter import DLISFile, high_compatibility_mode
